@@ -218,6 +218,9 @@ func v03RunDefrag(dgrams [][]byte) (classes []string, fp string, err error) {
 			fps.WriteString("A")
 			out++
 			classes = append(classes, "assembled-from-hostile")
+			if len(res.Data) > 100000 {
+				classes = append(classes, "assembled>100KB")
+			}
 		}
 	}
 	// service continues: a fresh 3-fragment message (reverse order) and a single message
@@ -313,11 +316,39 @@ func TestVerifC03_DefragNoPanic(t *testing.T) {
 			}
 			dgrams = append(dgrams, raw)
 		}
+		if rapid.IntRange(0, 11).Draw(rt, "bigComplete") == 7 {
+			// a complete message at the legal maximum: up to 255 fragments, each filling a datagram
+			// (a few 60000-byte ones when the count is small), in any order: 300 KB .. 480 KB reassembled
+			cnt := rapid.SampledFrom([]int{255, 255, 254, 200, 128, 8, 2}).Draw(rt, "bigCnt")
+			sz := rapid.SampledFrom([]int{1180, 1180, 1, 4000}).Draw(rt, "bigFragSize")
+			if cnt <= 8 {
+				sz = rapid.SampledFrom([]int{60000, 1180, 65000}).Draw(rt, "bigFragSizeFew")
+			}
+			order := make([]int, cnt)
+			for i := range order {
+				order[i] = i
+			}
+			order = rapid.Permutation(order).Draw(rt, "bigOrder")
+			var blk [][]byte
+			for _, fidx := range order {
+				blk = append(blk, v03EncUDP(5, 40000, uint8(fidx), uint8(cnt), "big:1", v03Fill(sz, byte(fidx))))
+			}
+			if rapid.Bool().Draw(rt, "bigFirst") {
+				dgrams = append(blk, dgrams...)
+			} else {
+				dgrams = append(dgrams, blk...)
+			}
+			multi += cnt
+		}
 		classes, fp, err := v03RunDefrag(dgrams)
 		nt := multi >= 2 // at least two fragments of multi-fragment messages reached the reassembler
 		st.Case(nt, fp, classes, func() string {
 			var sb strings.Builder
-			for _, d := range dgrams {
+			for i, d := range dgrams {
+				if i >= 48 {
+					fmt.Fprintf(&sb, "… %d more ", len(dgrams)-i)
+					break
+				}
 				sb.WriteString(hex.EncodeToString(d[:min(len(d), 16)]) + " ")
 			}
 			return sb.String() + "-> " + fp
